@@ -408,4 +408,7 @@ pub fn run(rc: &mut RunCtx) {
     rc.run_pt(STAGES[7], rc.pick(200_000, 4_000_000), (24, 24));
     rc.require_label("random", "slice_need_more", 20_000);
     rc.require_label("random", "slice_len9", 20_000);
+    if !rc.quick() {
+        rc.run_fuzz(None, 16);
+    }
 }
